@@ -911,6 +911,23 @@ fn gen_c14(p: &Pools, rng: &mut Rng, pb: &mut PB) {
 /// unit 3-vectors with denominators <= 9: the rotation matrix of an arc has denominators of the order of the product of the squares
 fn uv3s(p: &Pools, rng: &mut Rng) -> Vector3<Q> { loop { let v = uv3(p, rng); if v.x.d <= 9 && v.y.d <= 9 && v.z.d <= 9 { return v; } } }
 fn gen_c15(p: &Pools, rng: &mut Rng, pb: &mut PB) {
+    if rng.chance(1, 4) {
+        // close to parallel / antiparallel (pipeline C): the rotation must still take a onto b
+        let kind = *rng.pick(&["quat", "basis3", "arc", "basis2", "quat", "arc"]);
+        if kind == "basis2" {
+            let a5 = [pb.load(t(kind)), pb.load(Val::V2(uv2(p, rng))), pb.load(Val::I(rng.range(0, 3))), pb.load(Val::B(rng.chance(1, 2))), pb.load(Val::B(rng.chance(1, 2)))];
+            pb.call("arc_proj", "m", &a5);
+        } else {
+            let (e1, _e2, e3) = frame(p, rng);
+            let anti = rng.chance(1, 2);
+            // antiparallel: the scalar part of the quaternion is d^2/2, so keep d >= 1e-5 where rounding stays far below the bound
+            let dc = if kind == "arc" { rng.range(0, 2) } else if anti { rng.range(0, 2) } else { rng.range(0, 3) };
+            let sc = |rng: &mut Rng| if kind == "arc" { *rng.pick(&[q(1, 1), q(1, 1000), q(1000, 1), q(7, 2), q(1, 40), q(250, 1)]) } else { q(1, 1) };
+            let a7 = [pb.load(t(kind)), pb.load(Val::V3(e1)), pb.load(Val::V3(e3)), pb.load(Val::I(dc)), pb.load(Val::B(anti)), pb.load(vs(sc(rng))), pb.load(vs(sc(rng)))];
+            pb.call("arc_proj", "m", &a7);
+        }
+        return;
+    }
     match rng.below(4) {
         0 | 1 => {
             let a = uv3s(p, rng);
